@@ -4,7 +4,7 @@ import re
 from analysis import (Prov, Guards, fmt, fmt_short, walk, roots, short, canon, comparison, callee_matches, must_pass,
                       const_int_of, writes_into, aliases_of, async_param_names)
 from facts import AnchorError, strip_closure
-from harness import Rule
+from harness import Rule, guarded
 from c01 import bool_pass_edges
 
 PID = "C02"
@@ -575,7 +575,9 @@ def r6(ctx):
 
 
 def run(ctx):
-    a, c = r1_r3(ctx)
-    b = r2(ctx)
-    d, e = r4_r5(ctx)
-    return [a, b, c, d, e, r6(ctx)]
+    G = lambda l, f, *a: guarded("C02." + l, f, ctx, *a)
+    x = G("R1-R3", r1_r3)
+    y = G("R2", r2)
+    z = G("R4-R5", r4_r5)
+    out = [x[0]] + y + x[1:] + z + G("R6", r6)
+    return out
